@@ -113,6 +113,8 @@
 (declare-fun typeUnderlying (Iface) Iface)
 (declare-fun basicInfo (Ref) Int)
 (declare-fun bitand (Int Int) Int)
+; go/types: the returned expression is absent or the untyped nil (decided by the trusted closure isRetNil)
+(declare-fun RetIsNil (Ref) Bool)
 (declare-fun funcType (Ref) Iface)
 (declare-fun sigTParams (Ref) Ref)
 (declare-fun tplLen (Ref) Int)
